@@ -181,7 +181,16 @@ def gen_rm(rng, idx, big=False, prestart=True):
                           str(pick_prio(rng))])
         L.append(['run', str(rng.choice([0, 1, 4, 8, 16]))])
     L.append(['end'])
-    return L
+    # the same requester asks twice for the same thing while its first request may still wait (two entries of the
+    # waiting list that are EQUAL: same amounts, same callback): every third registration is repeated at once.
+    # (own random stream: the scenarios are otherwise the ones generated before this was added)
+    rng2 = random.Random(f'rm-twice-{idx}-{len(L)}')
+    out = []
+    for l in L:
+        out.append(l)
+        if 'register' in l[:3] and l[0] in ('ext', 'script') and rng2.random() < 0.34:
+            out.append(list(l))
+    return out
 
 
 # --------------------------------------------------------------------------------------- maint
